@@ -1,20 +1,23 @@
 #!/bin/bash
 # usage: tools/try_seed.sh <patch.diff> <Cxx> [<Cyy> ...]
-# Applies a seeded change in a scratch worktree of /repo (outside /repo and /verif), runs the given checks
-# against it (own build dirs), prints their verdict lines, and removes the worktree and build output.
+# Applies a seeded change in a persistent scratch clone of /repo (outside /repo and /verif; reset to /repo's HEAD
+# first), runs the given checks against it with their own incrementally rebuilt build directories, prints the
+# verdict lines, and reverts the change.  Remove /tmp/seedrepo and /tmp/seedwork when seeding is over.
 set -u
 PATCH=$(realpath "$1"); shift
-TAG=$(echo "$PATCH" | md5sum | cut -c1-8)
-WT=/tmp/seedrun-$TAG; WK=/tmp/seedwork-$TAG
-git -C /repo worktree remove --force $WT >/dev/null 2>&1; rm -rf $WT $WK
-git -C /repo worktree add --detach $WT HEAD >/dev/null 2>&1 || { echo "worktree failed"; exit 2; }
-if ! git -C $WT apply "$PATCH"; then echo "PATCH DOES NOT APPLY"; git -C /repo worktree remove --force $WT; exit 2; fi
+SR=/tmp/seedrepo; WK=/tmp/seedwork
+exec 9>/tmp/seedrepo.lock; flock 9
+if [ ! -d $SR/.git ]; then git clone -q /repo $SR || exit 2; fi
+git -C $SR checkout -q -- .
+H=$(git -C /repo rev-parse HEAD)
+if [ "$(git -C $SR rev-parse HEAD)" != "$H" ]; then git -C $SR fetch -q origin; git -C $SR reset -q --hard $H; fi
+if ! git -C $SR apply "$PATCH"; then echo "PATCH DOES NOT APPLY"; exit 2; fi
 cd /verif
 for P in "$@"; do
-  echo "=== $P on $(basename $PATCH) ($TAG)"
-  VERIF_REPO=$WT VERIF_WORK=$WK ./check $P --tier quick > /tmp/seedrun-$TAG-$P.out 2> /tmp/seedrun-$TAG-$P.err
+  echo "=== $P on $PATCH"
+  VERIF_REPO=$SR VERIF_WORK=$WK ./check $P --tier quick > /tmp/seedrun-$P.out 2> /tmp/seedrun-$P.err
   echo "exit=$?"
-  grep -E "^(VIOLATION|KNOWN-FINDING|OK )" /tmp/seedrun-$TAG-$P.out | cut -c1-300
-  for r in $(grep -oE "replay=[^ ]+" /tmp/seedrun-$TAG-$P.out | cut -d= -f2 | head -2); do echo "--- $r"; head -12 $r | cut -c1-400; done
+  grep -E "^(VIOLATION|KNOWN-FINDING|OK )" /tmp/seedrun-$P.out | cut -c1-300
+  for r in $(grep -oE "replay=[^ ]+" /tmp/seedrun-$P.out | cut -d= -f2 | head -2); do echo "--- $r"; head -12 $r | cut -c1-400; done
 done
-git -C /repo worktree remove --force $WT >/dev/null 2>&1; rm -rf $WT $WK
+git -C $SR checkout -q -- .
